@@ -646,6 +646,13 @@ namespace bloch::runtime {
         return {};
     }
 
+    // A rotation by an infinite or NaN angle (float overflow, 0/0) would turn every amplitude into
+    // NaN; refuse it like any other impossible operation.
+    static void ensureFiniteAngle(double angle, int line, int column) {
+        if (!std::isfinite(angle))
+            throw BlochError(ErrorCategory::Runtime, line, column, "rotation angle must be finite");
+    }
+
     // An index of type long outside the int range is out of bounds for every array; saturate it
     // instead of truncating it to its low 32 bits (a[4294967296L] must not read a[0]).
     static int indexFromLong(std::int64_t v) {
@@ -3003,12 +3010,15 @@ namespace bloch::runtime {
                         m_sim.z(args[0].qubit);
                     } else if (name == "rx") {
                         ensureQubitActive(args[0].qubit, callExpr->line, callExpr->column);
+                        ensureFiniteAngle(args[1].floatValue, callExpr->line, callExpr->column);
                         m_sim.rx(args[0].qubit, args[1].floatValue);
                     } else if (name == "ry") {
                         ensureQubitActive(args[0].qubit, callExpr->line, callExpr->column);
+                        ensureFiniteAngle(args[1].floatValue, callExpr->line, callExpr->column);
                         m_sim.ry(args[0].qubit, args[1].floatValue);
                     } else if (name == "rz") {
                         ensureQubitActive(args[0].qubit, callExpr->line, callExpr->column);
+                        ensureFiniteAngle(args[1].floatValue, callExpr->line, callExpr->column);
                         m_sim.rz(args[0].qubit, args[1].floatValue);
                     } else if (name == "cx") {
                         ensureQubitActive(args[0].qubit, callExpr->line, callExpr->column);
